@@ -3,7 +3,8 @@
     constructors, PublicKeyHash / IsP2PKH / Addresses against the model's executable definitions. *)
 From Coq Require Import String List NArith Bool.
 From Coq Require Import Strings.Byte.
-From GoBT Require Import lib.Bytes lib.Hex lib.Str lib.Base58 model.Address corr.Corr.
+From GoBT Require Import model.Tx spec.FeeSpec model.Fees model.Change corr.FeeCorr.
+From GoBT Require Import lib.Bytes lib.Hex lib.Str lib.Base58 model.Address model.AddressTx corr.Corr.
 Import ListNotations.
 Local Open Scope string_scope.
 
@@ -11,6 +12,12 @@ Local Open Scope string_scope.
 Fixpoint srep_nat (u : string) (n : nat) : string :=
   match n with O => EmptyString | S k => String.append u (srep_nat u k) end.
 Definition srep (u : string) (n : N) : string := srep_nat u (N.to_nat n).
+
+(** a call of one of the TRANSACTION METHODS that accept an address string, on a transaction in some state *)
+Inductive txop :=
+| OpPay (sats : N)          (* Tx.PayToAddress(s, sats) *)
+| OpAdd (sats : N)          (* Tx.AddP2PKHOutputFromAddress(s, sats) *)
+| OpChange (q : quote).     (* Tx.ChangeToAddress(s, q) *)
 
 Inductive case :=
 (* base58.Encode(b) = enc ; base58.Decode(enc) is covered by CB58Dec *)
@@ -30,7 +37,12 @@ Inductive case :=
 | CScriptKey (k : bytes) (res : option bytes)
 | CScriptHash (h : bytes) (script : bytes)
 (* PublicKeyHash / IsP2PKH / Addresses on arbitrary script bytes *)
-| CScript (s : bytes) (pkh : option bytes) (is_p2pkh_obs : bool) (addrs : option (list string)).
+| CScript (s : bytes) (pkh : option bytes) (is_p2pkh_obs : bool) (addrs : option (list string))
+(* one transaction method on the transaction [t] (as it was before the call: empty, inputs = outputs, inputs above /
+   below the outputs, built by earlier calls of a history) with the string [s]: the verdict - accepted with / without an
+   output appended, an error, a panic - and the outputs afterwards.  Which error is not compared (a call can have more
+   than one reason to fail); that the call fails, and what it leaves behind, is. *)
+| CTxOp (t : tx) (op : txop) (s : string) (res : obs bool) (outs_after : list output).
 
 Definition opt_bytes_eq (r : res bytes) (o : option bytes) : bool :=
   match r, o with
@@ -43,6 +55,25 @@ Fixpoint strings_eqb (a b : list string) : bool :=
   match a, b with
   | [], [] => true
   | x :: a', y :: b' => String.eqb x y && strings_eqb a' b'
+  | _, _ => false
+  end.
+
+Definition of_res (r : res unit) : outcome bool :=
+  match r with Ok _ => FOk true | Err _ => FErr ErrBadAddress | Panic => FPanic end.
+
+Definition run_txop (t : tx) (op : txop) (s : string) : outcome bool * tx :=
+  match op with
+  | OpPay sats => let '(r, t') := pay_to_address t s sats in (of_res r, t')
+  | OpAdd sats => let '(r, t') := add_p2pkh_output_from_address t s sats in (of_res r, t')
+  | OpChange q => change_to_address_str t q s
+  end.
+
+Definition verdict_match (m : outcome bool) (o : obs bool) : bool :=
+  match m, o with
+  | FOk a, OOk b => Bool.eqb a b
+  | FErr _, OErr _ | FErr _, OErrOther => true
+  | FPanic, OPanic => true
+  | FFatal, OFatal => true
   | _, _ => false
   end.
 
@@ -80,6 +111,9 @@ Definition check (c : case) : bool :=
       | Err _, None => true
       | _, _ => false
       end
+  | CTxOp t op s res outs =>
+      let '(r, t') := run_txop t op s in
+      verdict_match r res && list_eqb output_eqb (tx_outs t') outs
   end.
 
 Definition mismatches := mismatches_with check.
